@@ -275,6 +275,49 @@ def run(ctx):
                             H.violation("monkeytype.cli:apply_stub_using_libcst", "apply:%s:%s" % (key, problems[0][:100]), "apply: " + "; ".join(problems[:3]), {"source": sn, "stub": stub[:700]}, {"result": out[:900], "problems": problems})
                         else:
                             H.ok(key, sample={"source": sn, "traced": [f_.__qualname__ for f_ in subset][:4], "k": k, "overwrite": overwrite, "confine": confine})
+        # ---- two source shapes on which the stub's names and libcst's reading of them part ways
+        H.section("names libcst reads differently", "a method with a private (name-mangled) parameter `__x`; a function whose argument is an instance of a nested class `Outer.Inner`: after apply the stub's "
+                  "annotations are present and the module still imports", "2 sources x confinement")
+        extra = {
+            "mangled-parameter": ("class C:\n    def f(self, __x, y=None):\n        return str(__x)\n\n\nRESULT = C().f(1)\n",
+                                  lambda m: [CallTrace(m.C.f, {"_C__x": int, "y": int}, str)], ("C.f", "y")),
+            "nested-class-annotation": ("class Outer:\n    class Inner:\n        pass\n\n\ndef use(inner, n):\n    return n\n\n\nRESULT = use(Outer.Inner(), 1)\n",
+                                        lambda m: [CallTrace(m.use, {"inner": m.Outer.Inner, "n": int}, int)], ("use", "n")),
+        }
+        for en, (src, mk, (fq, pname)) in extra.items():
+            name = "c15x_%s_%d" % (en.replace("-", "_"), ctx["seed"])
+            with open(os.path.join(tmp, name + ".py"), "w") as f:
+                f.write(src)
+            importlib.invalidate_caches()
+            mod = importlib.import_module(name)
+            stub = build_module_stubs_from_traces(mk(mod), 0)[name].render()
+            for confine in (False, True):
+                key = "%s|cf=%s" % (en, confine)
+                problems = []
+                try:
+                    out = apply_stub_using_libcst(stub, src, False, confine)
+                    after = annotations_of(ast.parse(out))
+                    if after.get((fq, pname)) is None:
+                        problems.append("stub annotation for %s.%s is missing" % (fq, pname))
+                    try:
+                        exec(compile(out, "<c15 %s>" % key, "exec"), {"__name__": name})
+                    except Exception as e:
+                        problems.append("result does not import: %r" % (e,))
+                except Exception as e:
+                    out = ""
+                    problems.append("apply fails: %r" % (e,))
+                if not problems:
+                    H.ok(key, sample={"source": en, "confine": confine, "result_head": out[:160]})
+                elif en == "mangled-parameter" and problems == ["stub annotation for C.f.y is missing"]:
+                    H.violation("monkeytype.stubs:FunctionDefinition.from_callable", "C15-mangled-parameter-not-annotated",
+                                "a method parameter written `__x` is reported by inspect as `_C__x`; the stub uses that name, libcst matches parameters by name and rejects the whole function: none of its annotations is applied (exit status 0)",
+                                {"source": en, "confine": confine, "stub": stub[:300]}, {"result": out[:400]})
+                elif en == "nested-class-annotation" and len(problems) == 1 and "does not import" in problems[0] and "Outer" in problems[0]:
+                    H.violation("monkeytype.cli:apply_stub_using_libcst", "C15-nested-class-annotation-bogus-import",
+                                "an annotation naming a nested class (`Outer.Inner`) is read by libcst as module.attribute: it adds `from Outer import Inner` and the module no longer imports",
+                                {"source": en, "confine": confine, "stub": stub[:300]}, {"result": out[:400], "problem": problems[0]})
+                else:
+                    H.violation("monkeytype.cli:apply_stub_using_libcst", "apply-x:%s:%s" % (key, problems[0][:100]), "apply: " + "; ".join(problems[:3]), {"source": en, "stub": stub[:500]}, {"result": out[:700], "problems": problems})
         # ---- through the CLI: a module inside a package with relative / local imports, `apply` with and without --pep_563
         import subprocess
         import monkeytype
